@@ -246,6 +246,47 @@ def run(db, tier):
     fa, fb = fields(cd), fields(gc)
     rep.check(bool(fa & fb), "R-CONST", "Consts::debug_info|same-map", cd.loc, "debug_info and get_cached_value read the same field %s" % sorted(fa & fb),
               "Consts::debug_info reads %s but constant lookups read %s" % (sorted(fa), sorted(fb)))
+    # ---------------- R-EXPORT: the script a debug-info record claims to describe is the script at that position of the output
+    import json as _json
+    rep.rule("R-EXPORT", "the index recorded in `exported-as` is the position the compiled script takes in the written file: taken from the "
+                         "file-wide order table / the output container itself, never from a counter over a part of the file")
+    EXPECT = {
+        "AnmScript": (("get_index_of",), "file-wide script table (script_ids.get_index_of(name))"),
+        "OldeEclSub": (("::len",), "number of subs already stored in the output map (subs.len())"),
+        "SclScript": (("Iterator::next",), "the timeline's slot in file order (also used to store the compiled timeline)"),
+        "MsgScript": (("::get",), "the script's rows of the dense script table, looked up by name"),
+    }
+    n_exp = 0
+    for f in sorted(db.fns.values(), key=lambda f: (f.file, f.line)):
+        if f.gen or not f.file.startswith("src/formats/"):
+            continue
+        d = None
+        for b in f.blocks:
+            for st in b["s"]:
+                adt = st.get("adt") or ""
+                if st["r"] != "agg" or not adt.startswith("debug_info::ScriptType") or not st["ops"]:
+                    continue
+                txt = _json.dumps(st)
+                vname = None
+                for cand in EXPECT:
+                    if cand in txt:
+                        vname = cand
+                if vname is None:
+                    continue
+                if d is None:
+                    d = flow.Defs(f)
+                n_exp += 1
+                rep.fn(f)
+                ds = flow.deep_sources(f, d, st["ops"][0])
+                calls = sorted(set(x[1] for x in ds if x[0] == "call"))
+                want, what = EXPECT[vname]
+                ok = any(any(c.endswith(w) for w in want) for c in calls)
+                counter = [c for c in calls if "Enumerate" in c or c.endswith("Iterator::enumerate")]
+                if vname == "AnmScript":
+                    ok = ok and not counter
+                rep.check(ok, "R-EXPORT", "%s|index provenance" % vname, "%s:%d" % (f.file, st["ln"]), "index comes from the " + what,
+                          "the exported index of %s does not come from the %s (sources: %s): the record names another script of the output file" % (vname, what, calls[:6]))
+    rep.floor("ScriptType records with an index", n_exp, 4)
     return rep
 
 
